@@ -35,11 +35,25 @@ open(p,'w').write(''.join(out))
 PY
   git add harness/Cargo.toml
 fi
+if git diff --name-only --diff-filter=U | grep -q '^tools/extract_consts.py$'; then
+  python3 - <<'PY'
+p='tools/extract_consts.py'
+out=[]
+for l in open(p):
+    if l.startswith('<<<<<<<') or l.startswith('=======') or l.startswith('>>>>>>>'): continue
+    out.append(l)
+open(p,'w').write(''.join(out))
+PY
+  git add tools/extract_consts.py
+fi
+for f in $(git diff --name-only --diff-filter=U | grep "^lean/HickoryVerif/Generated/" || true); do git checkout --ours "$f"; git add "$f"; done
 if git diff --name-only --diff-filter=U | grep -q '^harness/Cargo.lock$'; then
   git checkout --ours harness/Cargo.lock; git add harness/Cargo.lock
 fi
 for f in $(git diff --name-only --diff-filter=U | grep "^evidence/" || true); do git checkout --theirs "$f"; git add "$f"; done
 git checkout --ours MANIFEST.json 2>/dev/null || true
+python3 tools/extract_consts.py >/dev/null 2>&1 || true
+git add lean/HickoryVerif/Generated 2>/dev/null || true
 python3 tools/gen_manifest.py
 git add known-findings.json MANIFEST.json
 left=$(git diff --name-only --diff-filter=U)
